@@ -1,5 +1,7 @@
 """C02 — model edits do what they document; cross-references stay consistent."""
 import sys
+from fractions import Fraction as F
+
 import common
 import core_checks
 import coreops
@@ -9,8 +11,53 @@ RULE = ("random models and op sequences as for C01, all argument shapes (objects
         "counted: distinct (model, last three ops) of traces with >= 3 ops")
 
 
+SINGLE_TARGET = {"set_lb", "set_ub", "set_bounds", "add_mets", "sub_mets", "build_str", "imul", "set_rule", "ko_rxn", "obj_coef"}
+
+
+def parse_equation(eq):
+    """net stoichiometry of 'a + 2 b --> c' (metabolite ids without blanks; an empty side is allowed)"""
+    for arrow in ("<=>", "<--", "-->", "<->", "->", "<-"):
+        if arrow in eq:
+            left, right = eq.split(arrow, 1)
+            break
+    else:
+        return None
+    net = {}
+    for side, sign in ((left, -1), (right, 1)):
+        for term in side.split(" + "):
+            term = term.strip()
+            if not term:
+                continue
+            parts = term.split()
+            coef, mid = (F(parts[0]), parts[1]) if len(parts) == 2 else (F(1), parts[0])
+            net[mid] = net.get(mid, F(0)) + sign * coef
+    return {k: v for k, v in net.items() if v != 0}
+
+
+def effect_oracle(op, err, before, ex):
+    """What the operation documents (for operations outside the Lean model) and the frame: a reaction the operation does not name keeps its
+    stoichiometry, bounds and rule."""
+    import canon
+    probs = []
+    after = canon.full_dump(ex.model)
+    b, a = before["content"]["rxns"], after["content"]["rxns"]
+    if op["op"] in SINGLE_TARGET:
+        for rid in b:
+            if rid != op.get("r") and rid in a and (b[rid]["st"], b[rid]["lb"], b[rid]["ub"], b[rid]["rule"]) != (a[rid]["st"], a[rid]["lb"], a[rid]["ub"], a[rid]["rule"]):
+                probs.append(f"{op['op']} on {op.get('r')} changed the other reaction {rid}: {b[rid]} -> {a[rid]}")
+    if op["op"] == "build_str" and err is None and op["r"] in a:
+        want = parse_equation(op["eq"])
+        if want is not None:
+            got = {k: F(v) for k, v in a[op["r"]]["st"].items()}
+            if got != want:
+                probs.append(f"build_reaction_from_string({op['eq']!r}) left the stoichiometry {a[op['r']]['st']}, the equation says "
+                             f"{ {k: canon.num(v) for k, v in want.items()} }")
+    return probs
+
+
 def run(ctx):
-    return core_checks.run_core_property(ctx, "CobraModel.Props.C02", kinds=None, oracles=("xref",), quick=300, thorough=6000, rule=RULE, profiles=coreops.PROFILES)
+    return core_checks.run_core_property(ctx, "CobraModel.Props.C02", kinds=None, oracles=("xref",), quick=300, thorough=6000, rule=RULE,
+                                         profiles=coreops.PROFILES, extra_oracle=effect_oracle)
 
 
 if __name__ == "__main__":
